@@ -104,10 +104,10 @@ def applySafe (m : DMessage) (st : GState) : SafeOp → GState
   | .unmarshal f => (unmarshalFrame m st f).getD st
   | .copyFrom src => copyFrom m st src
 
-theorem C10_inv_all_partial (m : DMessage) (ops : List SafeOp)
+/-- one safe step from any state inside the invariant stays inside it -/
+theorem C10_safe_step (m : DMessage) (st : GState) (op : SafeOp)
     (hdef : ∀ s ∈ m.signals, rawInRange s (resetVal s) = true)
-    (hcls : ∀ s ∈ m.signals, SigOk s) :
-    Inv m (ops.foldl (applySafe m) (newState m)) = true := by
+    (hcls : ∀ s ∈ m.signals, SigOk s) (hi : Inv m st = true) : Inv m (applySafe m st op) = true := by
   have hk : ∀ s ∈ m.signals, kindOf s ≠ .float := by
     intro s hs hk
     have hf := (hcls s hs).nofloat
@@ -115,30 +115,33 @@ theorem C10_inv_all_partial (m : DMessage) (ops : List SafeOp)
     simp only [hf, Bool.and_false, Bool.false_eq_true, if_false] at hk
     repeat' split at hk
     all_goals cases hk
-  have hstep : ∀ st op, Inv m st = true → Inv m (applySafe m st op) = true := by
-    intro st op hi
-    cases op with
-    | reset => exact C10_inv_init m hdef
-    | setRaw i v =>
-      show Inv m (match m.signals[i]? with
-        | some s => ⟨setAt st.vals i (setRaw s v)⟩
-        | none => st) = true
-      cases hs : m.signals[i]? with
-      | none => exact hi
-      | some s =>
-        have hm : s ∈ m.signals := List.mem_of_getElem? hs
-        exact C10_setRaw_inv m st i s v hi hs (hcls s hm).l1 (hcls s hm).l64 (hk s hm)
-    | unmarshal f =>
-      show Inv m ((unmarshalFrame m st f).getD st) = true
-      cases h : unmarshalFrame m st f with
-      | none => exact hi
-      | some st' => exact C10_unmarshal_inv m st st' f hcls hi h
-    | copyFrom src => exact C10_copy_inv m st src hcls hi
+  cases op with
+  | reset => exact C10_inv_init m hdef
+  | setRaw i v =>
+    show Inv m (match m.signals[i]? with
+      | some s => ⟨setAt st.vals i (setRaw s v)⟩
+      | none => st) = true
+    cases hs : m.signals[i]? with
+    | none => exact hi
+    | some s =>
+      have hm : s ∈ m.signals := List.mem_of_getElem? hs
+      exact C10_setRaw_inv m st i s v hi hs (hcls s hm).l1 (hcls s hm).l64 (hk s hm)
+  | unmarshal f =>
+    show Inv m ((unmarshalFrame m st f).getD st) = true
+    cases h : unmarshalFrame m st f with
+    | none => exact hi
+    | some st' => exact C10_unmarshal_inv m st st' f hcls hi h
+  | copyFrom src => exact C10_copy_inv m st src hcls hi
+
+theorem C10_inv_all_partial (m : DMessage) (ops : List SafeOp)
+    (hdef : ∀ s ∈ m.signals, rawInRange s (resetVal s) = true)
+    (hcls : ∀ s ∈ m.signals, SigOk s) :
+    Inv m (ops.foldl (applySafe m) (newState m)) = true := by
   have : ∀ (l : List SafeOp) st, Inv m st = true → Inv m (l.foldl (applySafe m) st) = true := by
     intro l
     induction l with
     | nil => intro st h; exact h
-    | cons o os ih => intro st h; exact ih _ (hstep st o h)
+    | cons o os ih => intro st h; exact ih _ (C10_safe_step m st o hdef hcls h)
   exact this ops _ (C10_inv_init m hdef)
 
 /-- No leak: in the produced frame every encoded field (plain signals, and multiplexed signals whose selector equals
